@@ -207,6 +207,7 @@ type RouteWorld struct {
 	readCount        map[taskKey]int        // number of distinct source incarnations over which the proxy read it
 	ackedUnconfirmed map[taskKey]bool       // tasks already reported as acknowledged without confirmation
 	intraSent        map[taskKey][]intraHop // multi-instance: intra-proxy streams a task was written to
+	intraStreams     []*simio.Stream
 
 	faultsLeft int
 	faults     map[string]int
@@ -218,7 +219,7 @@ type RouteWorld struct {
 	tailOK     bool
 	// which stream incarnation made the last registration call of each kind for each shard
 	lastReg   map[string]map[ShardID]string
-	lastRegAt map[ShardID]time.Time
+	lastRegAt map[string]time.Time
 	badOpens  []*badOpen
 	badLeft   int
 }
@@ -362,7 +363,7 @@ func NewRouteWorld(s *simrt.Sim, prof RouteProfile) *RouteWorld {
 			}
 		}
 		in.sm = proxy.NewShardManager(mc, scc, encryption.TLSConfig{}, loggers)
-		var smForServers proxy.ShardManager = recSM{ShardManager: in.sm, w: w}
+		var smForServers proxy.ShardManager = recSM{ShardManager: in.sm, w: w, inst: in.name}
 		in.observerA = proxy.NewReplicationStreamObserver(noopLoggers{}.Get(""))
 		in.observerB = proxy.NewReplicationStreamObserver(noopLoggers{}.Get(""))
 		// outbound server: serves the local cluster A; adminClient -> B, reverse -> A
@@ -407,6 +408,7 @@ func NewRouteWorld(s *simrt.Sim, prof RouteProfile) *RouteWorld {
 					opener = v[0]
 				}
 				s.Log("intra stream %s opened by %s: %s", st.Name, opener, mdSummary(omd))
+				w.intraStreams = append(w.intraStreams, st)
 				// tasks travel from the stream's server side (the source shard's instance) to the
 				// instance that opened it (the one that owned the target shard when it did)
 				st.OnS2C = func(m *simio.Res) {
@@ -872,9 +874,17 @@ func (w *RouteWorld) staleRegisteredLate(sh *shardModel, kind string) string {
 	if c == nil {
 		return ""
 	}
-	by := w.lastReg[kind][sh.sid()]
+	by := w.lastReg[kind+"@"+c.inst.name][sh.sid()]
 	if by != "" && by != c.st.Name {
 		return "stale-incarnation-registered-after-successor"
+	}
+	// multi-instance: the stale incarnation may be connected to another instance; its late
+	// registration carries a later timestamp than the successor's and evicts it through the
+	// ownership announcement
+	if kind == "shard" && w.prof.Multi {
+		if by := w.lastReg["shard@*"][sh.sid()]; by != "" && by != c.st.Name {
+			return "stale-incarnation-registered-after-successor"
+		}
 	}
 	return ""
 }
@@ -1065,7 +1075,7 @@ func (w *RouteWorld) Actions() []simrt.Action {
 				if !(w.mlnet.Knows(a.name, b.name) && w.mlnet.Knows(b.name, a.name)) {
 					continue
 				}
-				if w.phase == 0 || (w.phase == 1 && now-w.lastPP[pair] >= 30*time.Second) {
+				if w.phase == 0 || (w.phase >= 1 && now-w.lastPP[pair] >= 30*time.Second) {
 					add("pushpull:"+pair, 1, false, func() {
 						w.lastPP[pair] = w.s.Now()
 						w.mlnet.PushPull(a.name, b.name)
@@ -1366,12 +1376,14 @@ func (w *RouteWorld) registryChecks() {
 	if !w.prof.Cleanup {
 		return
 	}
-	var local map[string]ShardID
-	var ci proxy.ChannelDebugInfo
+	locals := map[*rInst]map[string]ShardID{}
+	cis := map[*rInst]proxy.ChannelDebugInfo{}
 	done := false
 	w.s.Spawn("inspect-registries", func() {
-		local = w.sm.GetLocalShards()
-		ci = w.sm.GetChannelInfo()
+		for _, in := range w.insts {
+			locals[in] = in.sm.GetLocalShards()
+			cis[in] = in.sm.GetChannelInfo()
+		}
 		done = true
 	})
 	w.s.ExtendBudget(100000, 30*time.Second)
@@ -1387,6 +1399,8 @@ func (w *RouteWorld) registryChecks() {
 		}
 		key := fmt.Sprintf("%d:%d", sh.cluster, sh.id)
 		long := fmt.Sprintf("(id: %d, shard: %d)", sh.cluster, sh.id)
+		// the registries of the instance the live stream is connected to
+		local, ci := locals[c.inst], cis[c.inst]
 		if _, ok := local[key]; !ok {
 			w.violateSig("C08", "live-stream-not-registered", w.staleRegisteredLate(sh, "shard"), "shard %s has a live stream (%s, the newest of %d incarnations) but is not among the local shards %v", sh.name(), c.st.Name, len(sh.allTgt), sortedKeysOf(local))
 		}
@@ -1451,30 +1465,61 @@ func (w *RouteWorld) cleanupChecks(live []string) {
 	if !w.prof.Cleanup {
 		return
 	}
-	if ls := w.sm.GetLocalShards(); len(ls) != 0 {
-		w.violate("C08", "leftover-shard", "local shards still registered after all streams ended: %v", ls)
-	}
-	ci := w.sm.GetChannelInfo()
-	if ci.TotalSendChannels != 0 || ci.TotalAckChannels != 0 {
-		w.violate("C08", "leftover-channel", "channels still registered after all streams ended: send=%v ack=%v", ci.RemoteSendChannels, ci.LocalAckChannels)
-	}
-	for _, sh := range w.allShards() {
-		if _, ok := w.sm.GetActiveReceiver(sh.sid()); ok {
-			w.violate("C08", "leftover-receiver", "active receiver still registered for %s", sh.name())
+	for _, in := range w.insts {
+		if ls := in.sm.GetLocalShards(); len(ls) != 0 {
+			w.violate("C08", "leftover-shard", "%s: local shards still registered after all streams ended: %v", in.name, ls)
 		}
-		if _, ok := w.sm.GetLocalReceiverCancelFunc(sh.sid()); ok {
-			w.violate("C08", "leftover-cancel", "receiver cancel func still registered for %s", sh.name())
+		ci := in.sm.GetChannelInfo()
+		if ci.TotalSendChannels != 0 || ci.TotalAckChannels != 0 {
+			w.violate("C08", "leftover-channel", "%s: channels still registered after all streams ended: send=%v ack=%v", in.name, ci.RemoteSendChannels, ci.LocalAckChannels)
 		}
+		for _, sh := range w.allShards() {
+			if r, ok := in.sm.GetActiveReceiver(sh.sid()); ok {
+				w.violate("C08", "leftover-receiver", "%s: active receiver (%T) still registered for %s", in.name, r, sh.name())
+			}
+			if _, ok := in.sm.GetLocalReceiverCancelFunc(sh.sid()); ok {
+				w.violate("C08", "leftover-cancel", "%s: receiver cancel func still registered for %s", in.name, sh.name())
+			}
+		}
+		if w.prof.Multi {
+			snd, rcv := proxy.VsimIntraLinks(in.sm)
+			sort.Strings(snd)
+			sort.Strings(rcv)
+			if len(snd) != 0 || len(rcv) != 0 {
+				w.violate("C08", "leftover-intra-link", "%s: intra-proxy links still registered after all streams ended and the instances reconciled: senders %v receivers %v", in.name, snd, rcv)
+			}
+		}
+	}
+	if w.prof.Multi {
+		var open []string
+		for _, st := range w.intraStreams {
+			if !st.Dead() {
+				open = append(open, st.Name)
+			}
+		}
+		if len(open) > 0 {
+			w.violate("C08", "leftover-intra-stream", "intra-proxy streams still open after all streams ended and the instances reconciled: %v", open)
+		}
+		// tasks that live as long as the instance does (reconcile loop, join loop) are not workers of a stream
+		var rest []string
+		for _, t := range live {
+			if strings.Contains(t, "go@Start") || strings.Contains(t, "startJoinLoop") || strings.Contains(t, "joinLoop") {
+				continue
+			}
+			rest = append(rest, t)
+		}
+		live = rest
 	}
 	if len(live) > 0 {
-		w.violate("C08", "stuck-worker", "tasks still alive after all streams ended and the lifetime was cancelled: %v", live)
+		w.violate("C08", "stuck-worker", "tasks still alive after all streams ended: %v", live)
 	}
 }
 
 // recSM decorates the real ShardManager (it is an interface) to observe ack translations.
 type recSM struct {
 	proxy.ShardManager
-	w *RouteWorld
+	w    *RouteWorld
+	inst string // name of the instance whose shard manager this is
 }
 
 // callerIncarnation names the target stream whose handler the calling task descends from.
@@ -1488,6 +1533,7 @@ func callerIncarnation() string {
 }
 
 func (r recSM) note(kind string, sh ShardID) {
+	kind += "@" + r.inst // registrations are per instance
 	if r.w.lastReg == nil {
 		r.w.lastReg = map[string]map[ShardID]string{}
 	}
@@ -1500,11 +1546,23 @@ func (r recSM) note(kind string, sh ShardID) {
 func (r recSM) RegisterShard(sh ShardID) time.Time {
 	t := r.ShardManager.RegisterShard(sh)
 	if r.w.lastRegAt == nil {
-		r.w.lastRegAt = map[ShardID]time.Time{}
+		r.w.lastRegAt = map[string]time.Time{}
 	}
-	// the registration with the latest timestamp is the one that is in effect
-	if last, ok := r.w.lastRegAt[sh]; !ok || t.After(last) {
-		r.w.lastRegAt[sh] = t
+	// the registration with the latest timestamp is the one that is in effect (per instance)
+	rk := r.inst + "|" + sidStr(sh)
+	// across instances the claim with the latest registration time evicts the others
+	if last, ok := r.w.lastRegAt["*|"+sidStr(sh)]; !ok || t.After(last) {
+		r.w.lastRegAt["*|"+sidStr(sh)] = t
+		if r.w.lastReg == nil {
+			r.w.lastReg = map[string]map[ShardID]string{}
+		}
+		if r.w.lastReg["shard@*"] == nil {
+			r.w.lastReg["shard@*"] = map[ShardID]string{}
+		}
+		r.w.lastReg["shard@*"][sh] = callerIncarnation()
+	}
+	if last, ok := r.w.lastRegAt[rk]; !ok || t.After(last) {
+		r.w.lastRegAt[rk] = t
 		r.note("shard", sh)
 	} else if t.Equal(last) {
 		r.w.s.Probe("registration-timestamp-tie")
